@@ -18,8 +18,15 @@ pub static SEQ: AtomicU64 = AtomicU64::new(0);
 /// C03: when set (scenario option "log_out"), every flush of a session is logged as an `out` event with the exact bytes written.
 pub static LOG_OUT: std::sync::atomic::AtomicBool = std::sync::atomic::AtomicBool::new(false);
 
+/// C20: when set (scenario option "timing"), every event also carries `t_us` (wall clock, microseconds) so that
+/// per-request latencies can be bounded coarsely.  Off by default: events are unchanged for everybody else.
+pub static LOG_TIME: std::sync::atomic::AtomicBool = std::sync::atomic::AtomicBool::new(false);
+
 pub fn log_event(log: &Log, mut v: Value) {
     let mut g = log.lock();
+    if LOG_TIME.load(Ordering::Relaxed) {
+        v["t_us"] = json!(std::time::SystemTime::now().duration_since(std::time::UNIX_EPOCH).map(|d| d.as_micros() as u64).unwrap_or(0));
+    }
     v["seq"] = json!(SEQ.fetch_add(1, Ordering::SeqCst));
     g.push(v);
 }
@@ -31,6 +38,7 @@ pub const MODE_CLOSE_MID_REPLY: u8 = 3; // writes half of the next reply, then c
 pub const MODE_SLOW: u8 = 4; // answers after slow_ms
 pub const MODE_ERROR: u8 = 5; // answers every statement with an ErrorResponse
 pub const MODE_HANG_STARTUP: u8 = 6; // accepts, never completes the startup
+pub const MODE_REFUSE: u8 = 7; // like "down" for the pooler (existing connections are closed, new ones are closed at once) but the port stays bound: no other process can grab it
 
 pub struct Backend {
     pub name: String,
@@ -43,10 +51,13 @@ pub struct Backend {
     pub shadow: Mutex<HashMap<String, String>>, // auth_query answers: user -> md5 hash
     pub open_conns: Mutex<BTreeMap<u64, Value>>, // live sessions: id -> last known state
     pub max_open: AtomicU64,
+    pub max_open_settled: AtomicU64, // C04: highest session count that persisted for 30 ms
     pub host: String, // address the listener binds (default 127.0.0.1; C07 uses 127.0.0.x aliases so that admin BAN <host> can tell servers apart)
     pub hang_match: Mutex<Option<String>>, // C07: a simple query containing this text is swallowed and never answered
     pub busy: Mutex<BTreeMap<u64, String>>, // C10: session id -> the statement it is executing right now (reported in every `cancel` event)
     pub gates: Mutex<std::collections::HashSet<String>>, // C10: opened gates; a statement with /*mock:gate=NAME*/ is answered only after NAME was opened
+    pub reply_segs: Mutex<Vec<usize>>, // C20: cut EVERY flush of this backend into TCP writes at these offsets (like the segs= directive, but per backend)
+    pub reply_segd: AtomicU64,         // C20: pause (ms) between those pieces
 }
 
 fn put_msg(out: &mut BytesMut, code: u8, body: &[u8]) {
@@ -114,6 +125,8 @@ struct Sess {
     portals: BTreeMap<String, String>, // portal -> query text
     skip_until_sync: bool,
     listens: Vec<String>,
+    out_set: std::collections::BTreeSet<String>, // GUCs set while NOT inside a transaction block, not reset since
+    role_out: bool,
 }
 
 impl Sess {
@@ -137,6 +150,8 @@ impl Sess {
             "txn": (self.txn as char).to_string(),
             "copy": self.copy_in,
             "gucs": self.dirty_gucs(),
+            "gucs_out": self.out_set.iter().filter(|k| self.effective(k) != self.defaults.get(*k).cloned()).collect::<Vec<_>>(),
+            "role_out": self.role_out && self.role.is_some(),
             "role": self.role,
             "stmts": self.stmts.iter().filter(|(k, _)| !k.is_empty()).map(|(k, v)| json!([k, v.query, v.types])).collect::<Vec<_>>(),
             "sql_prepared": self.sql_prepared.keys().collect::<Vec<_>>(),
@@ -341,6 +356,8 @@ struct C03Script {
     segs: Vec<usize>,               // cut the NEXT flush into separate TCP writes at these byte offsets
     seg_delay_ms: u64,              // pause between the pieces (default 2 ms)
     copy_reply_raw: Option<Vec<u8>>, // bytes to emit instead of `C Z` / `E Z` when CopyDone/CopyFail arrives
+    copy_reply_raw2: Option<Vec<u8>>, // if set: after copy_reply_raw the session is in COPY IN again (a second COPY
+                                      // of the same Query) and answers the next CopyDone/CopyFail with these bytes
 }
 
 struct Conn {
@@ -360,6 +377,9 @@ impl Conn {
 
     fn set_guc(&mut self, k: &str, v: Option<String>, local: bool) {
         let k = canon(k);
+        if self.s.txn == b'I' && v.is_some() {
+            self.s.out_set.insert(k.clone());
+        }
         let before = self.s.effective(&k);
         match (v, local) {
             (Some(v), true) => {
@@ -498,6 +518,9 @@ impl Conn {
         if let Some(h) = d.get("copy_reply_raw") {
             self.c03.copy_reply_raw = Some(crate::util::unhex(h));
         }
+        if let Some(h) = d.get("copy_reply_raw2") {
+            self.c03.copy_reply_raw2 = Some(crate::util::unhex(h));
+        }
         if let Some(h) = d.get("raw") {
             self.out.put_slice(&crate::util::unhex(h));
             if d.contains_key("copy_in") {
@@ -608,6 +631,7 @@ impl Conn {
                     match parse_value(&rest[5..], false) {
                         Some(v) => {
                             self.s.role = if v.eq_ignore_ascii_case("none") { None } else { Some(v) };
+                            self.s.role_out = self.s.txn == b'I';
                             self.complete("SET");
                         }
                         None => self.err("42601", "syntax error in SET ROLE"),
@@ -651,6 +675,7 @@ impl Conn {
                 if words.get(1) == Some(&"ALL") {
                     let d = self.s.defaults.clone();
                     self.restore_gucs(d);
+                    self.s.out_set.clear();
                 } else if words.get(1) == Some(&"ROLE") {
                     self.s.role = None;
                 } else if words.get(1) == Some(&"SESSION") {
@@ -663,6 +688,7 @@ impl Conn {
             "DISCARD" => {
                 let d = self.s.defaults.clone();
                 self.restore_gucs(d);
+                self.s.out_set.clear();
                 self.s.role = None;
                 self.s.stmts.clear();
                 self.s.sql_prepared.clear();
@@ -763,6 +789,14 @@ impl Conn {
         }
         if LOG_OUT.load(Ordering::SeqCst) {
             log_event(&self.be.log, json!({"who": self.be.name, "conn": self.s.id, "ev": "out", "nbytes": self.out.len(), "hex": hex(&self.out), "segs": self.c03.segs}));
+        }
+        if self.c03.segs.is_empty() {
+            // C20: per-backend cut points (step `backend` reply_segs / reply_segd) apply to every flush
+            let bs = self.be.reply_segs.lock().clone();
+            if !bs.is_empty() {
+                self.c03.segs = bs;
+                self.c03.seg_delay_ms = self.be.reply_segd.load(Ordering::SeqCst);
+            }
         }
         if !self.c03.segs.is_empty() {
             // C03: write the reply in pieces (separate TCP segments: TCP_NODELAY is on, short pause between them)
@@ -924,6 +958,8 @@ async fn session(be: Arc<Backend>, mut stream: TcpStream) {
         portals: BTreeMap::new(),
         skip_until_sync: false,
         listens: vec![],
+        out_set: Default::default(),
+        role_out: false,
     };
     let mut c = Conn { be: be.clone(), s, stream, out: BytesMut::new(), c03: C03Script::default() };
     log_event(&be.log, json!({"who": be.name, "conn": id, "ev": "ready", "pid": id as i32 + 1000, "key": (id as i32 + 1000) * 7 + 13}));
@@ -931,6 +967,20 @@ async fn session(be: Arc<Backend>, mut stream: TcpStream) {
     {
         let n = be.open_conns.lock().len() as u64;
         be.max_open.fetch_max(n, Ordering::SeqCst);
+        // C04: `max_open` can overshoot for an instant when the pooler closes one connection and
+        // opens the next (its Terminate may still be unread here).  `max_open_settled` only counts
+        // a level that is still there 15 and 30 ms later.
+        if n > be.max_open_settled.load(Ordering::SeqCst) {
+            let be4 = be.clone();
+            tokio::spawn(async move {
+                let mut m = n;
+                for _ in 0..2 {
+                    tokio::time::sleep(std::time::Duration::from_millis(15)).await;
+                    m = m.min(be4.open_conns.lock().len() as u64);
+                }
+                be4.max_open_settled.fetch_max(m, Ordering::SeqCst);
+            });
+        }
     }
     let why = run_session(&mut c).await;
     be.open_conns.lock().remove(&id);
@@ -945,7 +995,8 @@ async fn run_session(c: &mut Conn) -> String {
                 Ok(Ok(x)) => break x,
                 Ok(Err(_)) => return "eof".into(),
                 Err(_) => {
-                    if c.be.mode.load(Ordering::SeqCst) == MODE_DOWN {
+                    let m = c.be.mode.load(Ordering::SeqCst);
+                    if m == MODE_DOWN || m == MODE_REFUSE {
                         return "backend down".into();
                     }
                 }
@@ -963,7 +1014,7 @@ async fn run_session(c: &mut Conn) -> String {
             return "eof in body".into();
         }
         let mode = c.be.mode.load(Ordering::SeqCst);
-        if mode == MODE_DOWN {
+        if mode == MODE_DOWN || mode == MODE_REFUSE {
             return "backend down".into();
         }
         let mut raw = BytesMut::new();
@@ -1008,8 +1059,9 @@ async fn run_session(c: &mut Conn) -> String {
                         if !matches!(flow, Flow::Continue) || c.s.copy_in {
                             break;
                         }
-                        if errored && before_err != b'E' {
-                            // simple protocol: an error aborts the rest of the message
+                        let _ = before_err;
+                        if errored {
+                            // simple protocol: an error aborts the rest of the query string
                             break;
                         }
                     }
@@ -1037,6 +1089,11 @@ async fn run_session(c: &mut Conn) -> String {
                     c.s.copy_in = false;
                     let r = c.c03.copy_reply_raw.take().unwrap();
                     c.out.put_slice(&r);
+                    if c.c03.copy_reply_raw2.is_some() {
+                        // the scripted reply ended with a CopyInResponse: COPY IN again
+                        c.c03.copy_reply_raw = c.c03.copy_reply_raw2.take();
+                        c.s.copy_in = true;
+                    }
                 } else if c.s.copy_in {
                     c.s.copy_in = false;
                     if code == b'c' {
@@ -1311,10 +1368,13 @@ impl Backend {
             shadow: Mutex::new(HashMap::new()),
             open_conns: Mutex::new(BTreeMap::new()),
             max_open: AtomicU64::new(0),
+            max_open_settled: AtomicU64::new(0),
             host: host.to_string(),
             hang_match: Mutex::new(None),
             busy: Mutex::new(BTreeMap::new()),
             gates: Mutex::new(std::collections::HashSet::new()),
+            reply_segs: Mutex::new(Vec::new()),
+            reply_segd: AtomicU64::new(2),
         });
         let be2 = be.clone();
         tokio::spawn(async move {
@@ -1337,6 +1397,10 @@ impl Backend {
                 let l = listener.as_ref().unwrap();
                 match tokio::time::timeout(std::time::Duration::from_millis(5), l.accept()).await {
                     Ok(Ok((s, _))) => {
+                        if be2.mode.load(Ordering::SeqCst) == MODE_REFUSE {
+                            drop(s); // "refuse": close at once
+                            continue;
+                        }
                         let be3 = be2.clone();
                         tokio::spawn(async move { session(be3, s).await });
                     }
@@ -1355,6 +1419,7 @@ impl Backend {
             "slow" => MODE_SLOW,
             "error" => MODE_ERROR,
             "hang_startup" => MODE_HANG_STARTUP,
+            "refuse" => MODE_REFUSE,
             _ => MODE_NORMAL,
         };
         self.mode.store(v, Ordering::SeqCst);
